@@ -196,6 +196,11 @@ func (handler *Handler) loadByteArray(source []byte) (net1 *dhcpSubnet, net2 *dh
 		}
 	}
 
+	// leases are validated against both subnets: a file that lost one of them cannot be used
+	if table.Leases != nil && (net1 == nil || net2 == nil) {
+		return nil, nil, nil, fmt.Errorf("missing subnet configuration: %w", packet.ErrInvalidIP)
+	}
+
 	tt := map[string]*Lease{}
 
 	// Careful: Yaml does not set private fields in unmarshaled structured.
